@@ -196,13 +196,26 @@ func (s *Sim) SetMapOrder(mode int, seed uint64) { s.mapMode, s.mapSeed = mode, 
 func Current() *Sim { return cur.Load() }
 
 // Seq is the current decision sequence number; events are stamped with it.
-func (s *Sim) Seq() int64 { return s.seq.Load() }
+func (s *Sim) Seq() int64 {
+	if s == nil {
+		return 0
+	}
+	return s.seq.Load()
+}
 
 // Now is the simulated time since Start.
-func (s *Sim) Now() time.Duration { return time.Since(s.t0) }
+func (s *Sim) Now() time.Duration {
+	if s == nil {
+		return 0
+	}
+	return time.Since(s.t0)
+}
 
 // Notify wakes the scheduler if it is letting time pass.
 func (s *Sim) Notify() {
+	if s == nil {
+		return
+	}
 	select {
 	case s.wake <- struct{}{}:
 	default:
@@ -402,6 +415,10 @@ func (s *Sim) recordPanic(name string, r any) {
 
 // Protect runs f on the calling (named) goroutine and records a panic instead of propagating it.
 func (s *Sim) Protect(name string, f func()) {
+	if s == nil {
+		f()
+		return
+	}
 	defer func() {
 		if r := recover(); r != nil {
 			s.recordPanic(name, r)
